@@ -64,6 +64,16 @@ def row(rep, prog, name, q, exc, pred, desc, anchors=None, n_expected=1):
     hits = [(st, e, pc) for st, e, pc in c.raises if pred(pc)]
     inst = f"{q}:{name}"
     if not hits:
+        # the check may have been moved into a private helper that this function calls (also from inside a comprehension):
+        # the guard is then the statement that makes the call
+        for call_st, callee in _helper_calls(prog, c):
+            hc = Ctx(prog, callee.qualname)
+            hh = [(st_, e_, pc_) for st_, e_, pc_ in hc.raises if pred(pc_)]
+            if hh:
+                rep.analysed(hc.fn)
+                hits = [(call_st, hh[0][1], hh[0][2])]
+                break
+    if not hits:
         rep.fail("C18.guard", inst, c.fn.where(), f"no guard found that rejects: {desc}")
         return None
     st, e, pc = hits[0]
@@ -90,6 +100,29 @@ def row(rep, prog, name, q, exc, pred, desc, anchors=None, n_expected=1):
             return None
     rep.ok("C18.guard", inst, site, f"{desc} -> {exc}")
     return c, st
+
+
+def _helper_calls(prog, c, depth=0):
+    """(statement of c.fn, private helper it calls) pairs, helpers of helpers included (one level)."""
+    out = []
+    mod = c.fn.qualname.rsplit(".", 2 if c.fn.cls is not None else 1)[0]
+    for st in c.cfg.all_stmts():
+        exprs = [st.test] if isinstance(st, (ast.If, ast.While)) else [st.iter] if isinstance(st, ast.For) else [st] if isinstance(st, (ast.Assign, ast.Expr, ast.Return, ast.AugAssign)) else []
+        for e in exprs:
+            for n in ast.walk(e):
+                if not isinstance(n, ast.Call):
+                    continue
+                callee = None
+                if isinstance(n.func, ast.Name) and n.func.id.startswith("_") and not n.func.id.startswith("__"):
+                    callee = prog.functions.get(f"{mod}.{n.func.id}")
+                elif isinstance(n.func, ast.Attribute) and isinstance(n.func.value, ast.Name) and n.func.value.id == "self" and c.fn.cls is not None \
+                        and n.func.attr.startswith("_") and not n.func.attr.startswith("__"):
+                    callee = prog.lookup_method(c.fn.cls, n.func.attr)
+                if callee is not None and callee is not c.fn:
+                    out.append((st, callee))
+                    if depth == 0:
+                        out += [(st, h2) for _s, h2 in _helper_calls(prog, Ctx(prog, callee.qualname), depth + 1)]
+    return out
 
 
 def stmts_calling(c, attr):
